@@ -119,6 +119,11 @@ func (r *scriptRunner) Wait(ctx context.Context) error {
 }
 
 func (r *scriptRunner) Kill(ctx context.Context) error {
+	// like a runner that stops its plugin through an API call carrying the context (docker kill, ...): a context
+	// that is already done stops nothing
+	if err := ctx.Err(); err != nil {
+		return err
+	}
 	r.mu.Lock()
 	r.kills++
 	if !r.hasExited() {
